@@ -120,6 +120,9 @@ def lex(src):
     return toks
 
 
+SPEC_KW = ("requires", "ensures", "recommends", "decreases", "returns", "no_unwind", "opens_invariants")
+
+
 class Loop:
     def __init__(self, kw, open_brace, close_brace, kw_tok=None):
         self.kw, self.open, self.close = kw, open_brace, close_brace  # token indices
@@ -307,7 +310,7 @@ def index_functions(src, toks=None):
                 r = q + 1
                 while True:
                     tt = toks[r]
-                    if tt.kind == "id" and tt.text == "where":
+                    if tt.kind == "id" and (tt.text == "where" or tt.text in SPEC_KW):
                         break
                     if tt.kind == "p" and tt.text in ("{", ";"):
                         break
@@ -322,9 +325,25 @@ def index_functions(src, toks=None):
                 q = r
             if toks[q].kind == "id" and toks[q].text == "where":
                 f.where_tok = q
-                while not (toks[q].kind == "p" and toks[q].text in ("{", ";")):
+                while not (toks[q].kind == "p" and toks[q].text in ("{", ";")) and not (toks[q].kind == "id" and toks[q].text in SPEC_KW):
                     if toks[q].kind == "p" and toks[q].text in "([":
                         q = toks[q].match
+                    q += 1
+            if toks[q].kind == "id" and toks[q].text in SPEC_KW:
+                # Verus spec clauses (annotated text): every clause ends with ',', so the body is the
+                # first depth-0 `{` that directly follows a ','
+                while True:
+                    tt = toks[q]
+                    if tt.kind == "p" and tt.text in "([":
+                        q = tt.match + 1
+                        continue
+                    if tt.kind == "p" and tt.text == "{":
+                        if toks[q - 1].text == ",":
+                            break
+                        q = tt.match + 1
+                        continue
+                    if tt.kind == "p" and tt.text == ";":
+                        break
                     q += 1
             if toks[q].text == "{":
                 f.body_open = q
